@@ -107,12 +107,12 @@ def compare(impl_payload, model_payload, line=""):
         return ["<no output>"], [("crash", "the implementation produced no output for this line (process died?)")]
     if model_payload is None:
         return ["<no model output>"], []
-    if model_payload == "pyonly":
+    if model_payload.split(" ")[0] == "pyonly":
         return [], []     # a query that only exists for the Python comparison (C19)
     I, M = fields(impl_payload), fields(model_payload)
     # ---- Tier A
     for k, mv in M.items():
-        if k.startswith("s."): continue
+        if k.startswith("s.") or k.startswith("py."): continue   # specification / Python-layer fields
         if mv == "*": continue
         if I.get(k) != mv: a.append(k)
     for k in I:
@@ -220,27 +220,30 @@ def compare(impl_payload, model_payload, line=""):
     return a, b
 
 
-# ---- C19: what the Python call returned vs what the Rust API returned for the same line
-CSV_EXC = {"UnexpectedEof": "EOFError", "NonBooleanCellValue": "TypeError", "IOError": "OSError"}
-
-
-def compare_python(py_payload, impl_payload, line):
+# ---- C19: what the Python call returned vs what the Rust API returned for the same line; the exception class
+# expected for a failure is the one the model of the Python layer computes (Model/PyProg.v, field py.exc of the
+# model's line): nothing about the mapping is written down here
+def compare_python(py_payload, impl_payload, line, model_payload=None):
     """list of reasons why the Python observation disagrees with the Rust one (empty = agree)"""
     if impl_payload is None:
         return ["no Rust observation for this line"]
     P, I = fields(py_payload), fields(impl_payload)
+    M = fields(model_payload) if model_payload else {}
+    want = M.get("py.exc")
     why = []
     ps, is_ = P.get("status"), I.get("status")
     if ps in ("ok", "na", "exc") or is_ in ("ok", "na", "err", "panic"):
         # a register line: success / failure must correspond, with the documented exception kind
         if is_ == "ok" and ps != "ok": why.append("Rust succeeds, Python %s %s" % (ps, P.get("exc", "")))
         elif is_ == "na" and ps not in ("na",): pass   # not expressible on one side: ignored
-        elif is_ == "err":
-            want = CSV_EXC.get(I.get("variant", ""), "RuntimeError")
-            if ps != "exc" or (P.get("exc") != want and not (want == "OSError" and P.get("exc") in ("OSError", "IOError", "FileNotFoundError"))):
-                why.append("Rust returns an error (%s), Python %s %s, documented kind %s" % (I.get("variant", "parse/conversion"), ps, P.get("exc", ""), want))
-        elif is_ == "panic":
-            if ps != "exc": why.append("Rust panics (documented refusal), Python %s" % ps)
+        elif is_ in ("err", "panic"):
+            got = P.get("exc")
+            if ps != "exc":
+                why.append("Rust %s (%s), Python %s" % ("returns an error" if is_ == "err" else "panics", I.get("variant", "parse/conversion"), ps))
+            elif want is None:
+                why.append("Rust fails and Python raises %s, but the model of the Python layer defines no exception here" % got)
+            elif got != want and not (want == "OSError" and got in ("OSError", "IOError", "FileNotFoundError")):
+                why.append("Rust %s (%s), Python raises %s, documented kind %s" % ("returns an error" if is_ == "err" else "panics", I.get("variant", "parse/conversion"), got, want))
         return why
     if ps == "skip" or is_ == "skip":
         return why
@@ -248,9 +251,10 @@ def compare_python(py_payload, impl_payload, line):
         return ["Python raised %s where the Rust API returns a value" % P.get("exc")]
     for k, v in P.items():
         if k == "exc":
-            want = {"checked": "KeyError", "acc": "RuntimeError"}.get(next((x for x in ("checked", "acc") if x in P), ""), None)
-            if line.split()[1] == "pyctor": want = "TypeError"
-            if want and v != want: why.append("exception %s, documented kind %s" % (v, want))
+            w = want if want not in (None, "none") else None
+            if want == "none" and v != "none": why.append("exception %s where the model of the Python layer returns a value" % v)
+            elif w and v != w: why.append("exception %s, documented kind %s" % (v, w))
+            elif want is None and v != "none": why.append("exception %s, not defined by the model of the Python layer" % v)
             continue
         if k not in I: continue
         if I[k] != v: why.append("%s: Python %s, Rust %s" % (k, v[:80], I[k][:80]))
